@@ -96,6 +96,7 @@ type FuncContract struct {
 	Results  []string
 	Pure     bool
 	Trusted  string
+	TrustedQuick string // trusted in the quick tier only (see the parser)
 	NoFrame  bool // "modifies anything"
 	Requires []*Clause
 	Ensures  []*Clause
@@ -292,11 +293,18 @@ func parseContractText(path, pkgPath, text string) (*ContractFile, error) {
 			case "panics":
 				cur.Panics = true
 			case "trusted":
-				s, err := strconv.Unquote(strings.TrimSpace(rest))
+				r := strings.TrimSpace(rest)
+				quickOnly := strings.HasPrefix(r, "quick ")
+				s, err := strconv.Unquote(strings.TrimSpace(strings.TrimPrefix(r, "quick ")))
 				if err != nil {
 					return nil, fail(fmt.Errorf("trusted needs a quoted reason"))
 				}
-				cur.Trusted = s
+				if quickOnly {
+					// assumed (and checked by its bounded stand-in) in the quick tier, proved in the thorough tier
+					cur.TrustedQuick = s
+				} else {
+					cur.Trusted = s
+				}
 			case "requires", "ensures", "use":
 				lab, etxt := splitLabel(rest)
 				using, etxt := splitUsing(etxt)
